@@ -75,8 +75,12 @@ func decodeRecs(api *cacheAPI, addr, dgram []byte) (recs []string, errText strin
 
 // buildCache fills a fresh cache by decoding announcements of n templates from several exporters.
 func buildCache(g *mon.RNG, proto string, n int, elems []wire.Elem) *builtCache {
+	return buildCacheMax(g, proto, n, elems, 6)
+}
+
+func buildCacheMax(g *mon.RNG, proto string, n int, elems []wire.Elem, maxFields int) *builtCache {
 	bc := &builtCache{proto: proto, api: newCacheAPI(proto, "")}
-	o := wire.GenOpts{Elems: elems, Varlen: proto == "ipfix", Reduced: true, Options: true, MaxFields: 6, MaxStrLen: 10}
+	o := wire.GenOpts{Elems: elems, Varlen: proto == "ipfix", Reduced: true, Options: true, MaxFields: maxFields, MaxStrLen: 10}
 	if proto == "nf9" {
 		o.OnlyPEN0, o.Varlen = true, false
 	}
@@ -591,6 +595,68 @@ func persistMain(args mon.Args) {
 			os.Remove(f)
 		}
 	}
+	// save histories on ONE file: a restart cycle saves over the file of the previous cycle, whose cache may
+	// have been larger, smaller or equal; what is loaded must be exactly the cache saved last
+	var histN int64
+	{
+		type stage struct{ n, maxFields int }
+		orders := [][]stage{{{40, 12}, {3, 2}}, {{3, 2}, {40, 12}}, {{12, 6}, {12, 6}}, {{30, 10}, {1, 1}, {8, 4}}, {{1, 1}, {1, 1}}, {{25, 8}, {24, 8}, {23, 8}, {2, 1}}}
+		if run.Thorough() {
+			for k := 0; k < 60; k++ {
+				g := mon.NewRNG(run.Seed, "persist-hist-order", k)
+				var o []stage
+				for j, m := 0, g.Range(2, 6); j < m; j++ {
+					o = append(o, stage{g.Range(1, 200), g.Range(1, 20)})
+				}
+				orders = append(orders, o)
+			}
+		}
+		for oi, order := range orders {
+			for _, proto := range []string{"ipfix", "nf9"} {
+				f := filepath.Join(dir, fmt.Sprintf("hist-%d-%s.json", oi, proto))
+				var desc []string
+				for si, st := range order {
+					g := mon.NewRNG(run.Seed, fmt.Sprintf("persist-hist-%d-%s", oi, proto), si)
+					small := snap
+					bc := buildCacheMax(g, proto, st.n, small, st.maxFields)
+					before := map[int][]string{}
+					for i, k := range bc.keys {
+						before[i], _, _ = decodeRecs(bc.api, k.Addr, k.Data)
+					}
+					if err := bc.api.dump(f); err != nil {
+						run.Violation("persist:dump-error", "Dump over an existing file failed: "+err.Error(), persistCase{Proto: proto, Kind: "save-history", Seed: run.Seed})
+						break
+					}
+					fi, _ := os.Stat(f)
+					desc = append(desc, fmt.Sprintf("save #%d: %d templates ≤%d fields → %d octets", si, st.n, st.maxFields, fi.Size()))
+					run.Eval(1)
+					histN++
+					api := newCacheAPI(proto, f)
+					bad := ""
+					for i, k := range bc.keys {
+						recs, et, pn := decodeRecs(api, k.Addr, k.Data)
+						if pn != "" || fmt.Sprint(recs) != fmt.Sprint(before[i]) {
+							bad = fmt.Sprintf("after %s and a load, data of exporter %x template %d decodes to %v (%s %s); before the last save it decoded to %v", strings.Join(desc, "; "), k.Addr, k.Tpl.ID, recs, et, pn, before[i])
+							break
+						}
+					}
+					if bad != "" {
+						content, _ := os.ReadFile(f)
+						pc := persistCase{Proto: proto, Kind: "save-history", Detail: strings.Join(desc, "; "), Judge: true, Seed: run.Seed, NTpl: st.n}
+						if len(content) < 20000 {
+							pc.File = mon.Hex(content)
+						}
+						run.Violation("persist:round-trip:save-over-existing-file", bad, pc)
+						break
+					}
+					run.Distinct(fmt.Sprintf("save-history|%s|%d|%d", proto, oi, si))
+				}
+				os.Remove(f)
+			}
+		}
+	}
+	run.Add("saves_over_an_existing_file", histN)
+
 	// real-crash confirmation: a child dumping in a loop is SIGKILLed and the leftover file is loaded
 	kills := run.Pick(12, 200)
 	var killLeft int64
@@ -648,7 +714,7 @@ func persistMain(args mon.Args) {
 	run.Add("sigkill_cycles", int64(kills))
 	run.Add("sigkill_cycles_that_left_a_partial_file", killLeft)
 	run.Set("shard_probe_keys", len(probes))
-	run.SetRule("caches built by decoding generated announcements (1..40 templates quick, ..2000 thorough; plain/options, IPv4/mapped/IPv6 exporters; ipfix and netflow v9). Faults enumerated: EVERY prefix length of the dump file (every crash point of truncate-then-write; stride above 64 KiB), real SIGKILLs of a process dumping in a loop, ~70 single structural edits of the valid document (shards dropped/null/wrong type, Templates null/[]/{}, Cache null/[]/31/33 entries, ShardNo absent/0/31/33/-1/'32'/2^40, entry-level edits, duplicated members, whole-document forms), absent file, seeded byte-level flips/inserts/deletes. Oracles per load: GetCache does not panic; the loaded cache re-dumped holds only entries equal to saved ones (prefix/structural faults); every saved key decodes as before or is unknown; announce+decode works on all 32 shards (64 probe keys, two per shard, chosen by harness-side FNV) and Dump works afterwards; the unmodified file round-trips every key. distinct = (kind, position/edit)")
+	run.SetRule("caches built by decoding generated announcements (1..40 templates quick, ..2000 thorough; plain/options, IPv4/mapped/IPv6 exporters; ipfix and netflow v9). Faults enumerated: EVERY prefix length of the dump file (every crash point of truncate-then-write; stride above 64 KiB), real SIGKILLs of a process dumping in a loop, ~70 single structural edits of the valid document (shards dropped/null/wrong type, Templates null/[]/{}, Cache null/[]/31/33 entries, ShardNo absent/0/31/33/-1/'32'/2^40, entry-level edits, duplicated members, whole-document forms), absent file, seeded byte-level flips/inserts/deletes. Oracles per load: GetCache does not panic; the loaded cache re-dumped holds only entries equal to saved ones (prefix/structural faults); every saved key decodes as before or is unknown; announce+decode works on all 32 shards (64 probe keys, two per shard, chosen by harness-side FNV) and Dump works afterwards; the unmodified file round-trips every key; save histories on one file (larger→smaller, smaller→larger, equal, several steps) must load back as exactly the cache saved last. distinct = (kind, position/edit)")
 	run.Assume("a byte flip inside a digit legitimately yields a different template: byte-level corruptions are judged for 'no crash, still usable' only")
 	run.Finish()
 }
